@@ -26,7 +26,7 @@ func c10FS() fstest.MapFS {
 	f := func(s string) *fstest.MapFile { return &fstest.MapFile{Data: []byte(s)} }
 	return fstest.MapFS{
 		"attrs.vuego":   f(`<p :title="t" :data-a="a" :data-b="b" :data-c="c" class="k" :class="{on: t, off: z, hot: a}" style="color:red;margin:0" :style="{fontSize: fs, color: 'blue', paddingTop: pt}" v-show="z">x</p><a :href="a" :id="b" :rel="c" :lang="t">l</a>`),
-		"maploop.vuego": f(`<ul><li v-for="v in m">{{ v }}</li></ul><ol><li v-for="(i, v) in m2" :data-i="i">{{ v.n }}</li></ol><dl><dt v-for="v in ms">{{ v }}</dt></dl>`),
+		"maploop.vuego": f(`<ul><li v-for="v in m">{{ v }}</li></ul><ol><li v-for="(i, v) in m2" :data-i="i">{{ v.n }}</li></ol><dl><dt v-for="v in ms">{{ v }}</dt></dl><em v-for="v in mi">{{ v }}</em><u v-for="(k, v) in ma">{{ k }}={{ v }}</u><s v-for="v in mf">{{ v }}</s>`),
 		"comp/card.vuego": f("---\nkind: card\n---\n<template :required=\"title\"><div class=\"card\" :data-kind=\"kind\"><h2>{{ title }}</h2><slot>fallback {{ kind }}</slot><slot name=\"foot\" :n=\"title\"></slot></div></template>"),
 		"comp/once.vuego": f(`<style v-once>.c{}</style><i>{{ who }}</i>`),
 		"include.vuego":   f(`<template include="comp/card.vuego" title="T1" :extra="m"><b>{{ who }}</b><template #foot="{ n }"><u>{{ n }}-{{ who }}</u></template></template><template include="comp/card.vuego" :title="a"></template><div v-for="x in xs"><template include="comp/once.vuego"></template></div>`),
@@ -58,7 +58,11 @@ func c10Data() any {
 	return map[string]any{"who": "W", "a": "A", "b": "B", "c": "C", "t": true, "z": 0, "fs": "12px", "pt": "3px",
 		"xs": []any{"x1", "x2", "x3"}, "m": map[string]any{"k1": "v1", "k2": "v2", "k3": "v3", "k4": "v4", "k5": "v5"},
 		"m2": map[string]any{"p": map[string]any{"n": "np"}, "q": map[string]any{"n": "nq"}, "r": map[string]any{"n": "nr"}},
-		"ms": map[string]string{"s1": "t1", "s2": "t2", "s3": "t3"}, "htmlv": "<b>raw</b>"}
+		"ms": map[string]string{"s1": "t1", "s2": "t2", "s3": "t3"}, "htmlv": "<b>raw</b>",
+		// maps whose keys are not strings
+		"mi": map[int]string{1: "i1", 2: "i2", 3: "i3", 4: "i4", 5: "i5", 6: "i6", 7: "i7", 8: "i8", 9: "i9", 10: "i10", 11: "i11", 12: "i12"},
+		"ma": map[any]any{1: "a1", "two": "a2", 3.5: "a3", true: "a4", 5: "a5", "six": "a6", 7: "a7", 8: "a8"},
+		"mf": map[float64]int{1.5: 1, 2.5: 2, 3.5: 3, 4.5: 4, 5.5: 5, 6.5: 6}}
 }
 func c10Struct() any {
 	return c10S{Who: "SW", A: "SA", Xs: []string{"s1", "s2"}, M: map[string]any{"k1": "v1", "k2": "v2", "k3": "v3"}, T: true}
@@ -181,7 +185,7 @@ func runC10(r *Run) {
 	}
 	reps := 20
 	if r.Thorough() {
-		reps = 60
+		reps = 200
 	}
 	// (a) repeated renders on one engine + cache snapshot
 	for _, p := range progs {
@@ -230,7 +234,7 @@ func runC10(r *Run) {
 	// (c) random sequences
 	nseq := 150
 	if r.Thorough() {
-		nseq = 1500
+		nseq = 8000
 	}
 	for s := 0; s < nseq; s++ {
 		e := c10NewEngine()
